@@ -476,12 +476,14 @@ void enumerate_for(const Prepared &p, int kind, Rng &r, bool thorough, std::vect
                 for (uint32_t v = 0; v <= 16; ++v)
                     vals.push_back(v);
             }
+            // an EMPTY payload with the other legal width is a valid dump (of the other precision)
+            uint32_t skip_value = (w.kind == W_WIDTH && p.pd.count == 0) ? (orig == 4 ? 8u : 4u) : orig;
             for (int k = 0; k < 8; ++k)
                 vals.push_back((uint32_t)r.next());
             std::sort(vals.begin(), vals.end());
             vals.erase(std::unique(vals.begin(), vals.end()), vals.end());
             for (uint32_t v : vals)
-                if (v != orig)
+                if (v != orig && v != skip_value)
                     cases.push_back(Case{K_WORD, (long)w.off, v, -1});
         }
         break;
@@ -501,6 +503,16 @@ void enumerate_for(const Prepared &p, int kind, Rng &r, bool thorough, std::vect
                 continue;
             if (format_signature(g_stacks[rdr]) == sig)
                 continue; // compatible on disk: C07's territory
+            // a dump WITHOUT elements does not say how many components an element has: for
+            // a reader that differs in that number only, these bytes are a valid empty dump
+            if (p.pd.count == 0 && g_stacks[rdr].shape != SHAPE_NONE && sd.shape != SHAPE_NONE) {
+                auto strip = [](std::string t) {
+                    auto m = t.rfind('M');
+                    return m == std::string::npos ? t : t.substr(0, m);
+                };
+                if (strip(format_signature(g_stacks[rdr])) == strip(sig))
+                    continue;
+            }
             cases.push_back(Case{K_PAIR, 0, 0, rdr});
         }
         break;
@@ -514,6 +526,9 @@ std::vector<size_t> gen_ext(Rng &r, const StackDesc &d, bool small)
     for (;;) {
         for (int k = 0; k < d.N; ++k)
             e[k] = (size_t)r.range(1, small ? 3 : (d.N >= 3 ? 4 : 7));
+        // a field without cells (what a default-constructed field is) now and then
+        if (d.shape == SHAPE_LAYOUT && d.N >= 1 && r.chance(0.06))
+            e[r.below(d.N)] = 0;
         if (d.shape == SHAPE_NONE || (volume(e) * d.M * scal_size(d.storage) <= (small ? 160u : 1500u) && storage_len(d, e) * d.M * scal_size(d.storage) <= 2400u))
             return e;
     }
